@@ -129,6 +129,25 @@ def run_case(ctx, case):
                 ok = ok and abs(ref[j] - x) <= 1e-6 * np.linalg.norm(M, 2)
                 used[j] = True
             ctx.check("full-run-gives-spectrum", bool(ok), site="arnoldi_eigs", preds=preds, detail={"values": vals, "spectrum": ref, "n": n})
+        # zero rows / columns that pad H (more steps asked than run: breakdown, or more than n) must not come back as
+        # eigenvalues: no returned eigenvector column is zero and no returned value is 0 (the spectra here have modulus >= 1)
+        normM = np.linalg.norm(M, 2)
+        okz = Vd.shape == (n, len(vals)) and np.linalg.norm(Vd, axis=0).min(initial=1.0) > 1e-8 and np.abs(vals).min(initial=1.0) > 1e-8 * normM
+        ctx.check("no-eigenpairs-from-padding", bool(okz), site="arnoldi_eigs", preds=preds,
+                  detail={"values": vals, "m": m_used, "n": n, "min_vector_norm": float(np.linalg.norm(Vd, axis=0).min(initial=1.0)) if Vd.ndim == 2 else None})
+        if degree is not None and degree < n and m_used > degree and case["tol"] <= 1e-8 and len(vals) <= degree + 1:
+            # the breakdown was detected (fewer values than steps asked): the Krylov space is invariant, so every returned
+            # value is an eigenvalue of A, each used once
+            ref = list(np.linalg.eigvals(M.astype(complex)))
+            ok, why = True, None
+            for x in vals:
+                j = int(np.argmin([abs(r - x) for r in ref])) if ref else -1
+                if j < 0 or abs(ref[j] - x) > 1e-6 * normM:
+                    ok, why = False, f"value {x} is not an (unused) eigenvalue"
+                    break
+                ref.pop(j)
+            ctx.check("eigenvalues-exact-after-breakdown", bool(ok), site="arnoldi_eigs", preds=dict(preds, breakdown=True),
+                      detail={"values": vals, "krylov_dim": degree, "m": m_used, "n": n, "why": why})
         res = np.linalg.norm(M.astype(complex) @ Vd - Vd * vals[None, :], axis=0) if Vd.shape == (n, len(vals)) else np.array([np.inf])
         ctx.notes["max_eigvec_residual_x1e6"] = max(ctx.notes.get("max_eigvec_residual_x1e6", 0), int(min(float(np.max(res)), 1e3) * 1e6))
         if False:  # eigenvector accuracy is not part of C15's statement (single-pass MGS loses orthogonality near exhaustion)
